@@ -14,11 +14,18 @@
 //!  6. asn.text, asnset.build, asnset.ops (all pairs of short sequences).
 //!  7. asnset.sizes : SIZE dimension - structured large sets (15..100 items)
 //!     against boundary-sharing small sets (0..3 items), all size pairs
-//!     0..=130 x 0..=8, both argument orders (size- or ratio-dependent paths).
+//!     0..=130 x 0..=8, both argument orders (size- or ratio-dependent paths),
+//!     and sets of 2^k-1, 2^k, 2^k+1 items up to 2^16 (thorough 2^20).
+//!  8. arbitrary.values (only with the harness feature `with-arbitrary`): values
+//!     drawn through Arbitrary against their constructed twins.
+//!  Every ordering is also checked through partial_cmp and < <= > >=; every
+//!  "equal => same hash" under three hashers (std, FxHash-style, write-call digest).
 //!
 //! Reference model: integers only. A prefix is (family, address as u128 in the
 //! family's width, length); its range is [addr, addr | hostmask]. Sets are
 //! `BTreeSet<u32>`.
+
+#![allow(unexpected_cfgs)]
 
 use std::cmp::Ordering;
 use std::collections::hash_map::DefaultHasher;
@@ -38,7 +45,42 @@ use serde_json::json;
 
 type Oc = BTreeMap<&'static str, u64>;
 fn bump(m: &mut Oc, k: &'static str) { *m.entry(k).or_insert(0) += 1 }
-fn h<T: Hash>(t: &T) -> u64 { let mut x = DefaultHasher::new(); t.hash(&mut x); x.finish() }
+/// An FxHash-style hasher: every write call is consumed in words of its own chunking.
+struct FxLike(u64);
+impl FxLike { fn add(&mut self, w: u64) { self.0 = (self.0.rotate_left(5) ^ w).wrapping_mul(0x51_7c_c1_b7_27_22_0a_95) } }
+impl Hasher for FxLike {
+    fn write(&mut self, mut b: &[u8]) {
+        while b.len() >= 8 { self.add(u64::from_le_bytes(b[..8].try_into().unwrap())); b = &b[8..] }
+        if b.len() >= 4 { self.add(u32::from_le_bytes(b[..4].try_into().unwrap()) as u64); b = &b[4..] }
+        for &x in b { self.add(x as u64) }
+    }
+    fn finish(&self) -> u64 { self.0 }
+}
+/// Digest of the exact sequence of write calls (length of every call, then its octets).
+struct Calls(u64);
+impl Calls { fn byte(&mut self, x: u8) { self.0 = (self.0 ^ x as u64).wrapping_mul(0x100_0000_01b3) } }
+impl Hasher for Calls {
+    fn write(&mut self, b: &[u8]) { for x in (b.len() as u64).to_le_bytes() { self.byte(x) } for &x in b { self.byte(x) } }
+    fn finish(&self) -> u64 { self.0 }
+}
+/// (std DefaultHasher, FxHash-style, digest of the write-call sequence): equal values must agree in all three.
+type H3 = (u64, u64, u64);
+fn h<T: Hash>(t: &T) -> H3 {
+    let mut x = DefaultHasher::new(); t.hash(&mut x);
+    let mut y = FxLike(0); t.hash(&mut y);
+    let mut z = Calls(0xcbf2_9ce4_8422_2325); t.hash(&mut z);
+    (x.finish(), y.finish(), z.finish())
+}
+fn hash_diff(a: H3, b: H3) -> String {
+    (if a.0 != b.0 { "differ under std DefaultHasher" } else if a.2 != b.2 { "feed a Hasher different sequences of write calls" } else if a.1 != b.1 { "differ under an FxHash-style hasher" } else { "hash equally" }).to_string()
+}
+/// partial_cmp and the four comparison operators must say exactly what cmp says (c = cmp as -1/0/1).
+fn ops_vs_cmp<T: Ord>(a: &T, b: &T, c: i8) -> Result<(), String> {
+    let pc = a.partial_cmp(b).map(|x| x as i8);
+    let got = (a < b, a <= b, a > b, a >= b);
+    if pc != Some(c) || got != (c < 0, c <= 0, c > 0, c >= 0) { return Err(format!("cmp = {c}, but partial_cmp = {pc:?} and (<, <=, >, >=) = {got:?}")) }
+    Ok(())
+}
 
 /// Failures of one work item, handed to the Ctx in enumeration order so that
 /// the printed witnesses do not depend on thread scheduling. At most ROW_CAP
@@ -144,6 +186,136 @@ fn model_prefix_text(t: &str) -> Option<(bool, u128, u8)> {
 }
 
 
+
+// ------------------------------------------------------ Arbitrary-produced values
+
+/// Values drawn through `arbitrary::Arbitrary` (crate feature `arbitrary` of rpki) are a further
+/// public construction route. Compiled only when the harness is built with its feature
+/// `with-arbitrary` (harness/Cargo.toml: dependency `arbitrary = "1"`, rpki feature `arbitrary`,
+/// `[features] with-arbitrary = []`).
+#[cfg(not(feature = "with-arbitrary"))]
+fn arbitrary_space(ctx: &Ctx, _t0: &std::time::Instant) {
+    ctx.assume("values produced by the Arbitrary impls (rpki feature `arbitrary`) are NOT covered: the harness is built without its feature `with-arbitrary`");
+}
+
+#[cfg(feature = "with-arbitrary")]
+fn arbitrary_space(ctx: &Ctx, t0: &std::time::Instant) {
+    use arbitrary::{Arbitrary, Unstructured};
+    let sp = ctx.space("arbitrary.values",
+        "Prefix, MaxLenPrefix, RouteOrigin and Asn drawn with Arbitrary from EVERY octet string of length <= 2 (thorough: <= 3) and from structured 24-octet inputs (family bit x every length octet 0..=255 x 6 address patterns x 7 max-len encodings x 2 ASNs): each value must satisfy the construction invariants, be ==, cmp-Equal, equally hashed (three hashers) and equally rendered to the value built from its own accessors through the public constructors, and its text must parse back to it; all pairs of the distinct prefixes / max-len prefixes / origins so produced: == <=> cmp Equal <=> same integers, == implies equal hashes, operators agree with cmp; non-trivial = distinct values produced");
+    let max_len: usize = ctx.tier.pick(2, 3);
+    let mut inputs: Vec<Vec<u8>> = vec![vec![]];
+    for l in 1..=max_len { for i in 0..(256u64.pow(l as u32)) { inputs.push((0..l).map(|k| (i >> (8 * k)) as u8).collect()) } }
+    let pats: [[u8; 16]; 6] = [[0; 16], [0xff; 16], { let mut p = [0; 16]; p[15] = 0x80; p }, { let mut p = [0; 16]; p[0] = 1; p }, [0xaa; 16], { let mut p = [0xff; 16]; p[0] = 0xfe; p }];
+    for fam in [0u8, 1] { for lenb in 0..=255u8 { for pat in &pats { for ml in [[0u8, 0], [1, 0], [1, 32], [1, 33], [1, 128], [1, 129], [1, 255]] { for asn in [[0u8; 4], [0xff; 4]] {
+        let mut v = vec![fam, lenb]; v.extend_from_slice(pat); v.extend_from_slice(&ml); v.extend_from_slice(&asn); inputs.push(v);
+        // the same address octets in reverse order (whatever the endianness of the integer draw)
+        let mut v = vec![fam, lenb]; v.extend(pat.iter().rev()); v.extend_from_slice(&ml); v.extend_from_slice(&asn); inputs.push(v);
+    }}}}}
+    inputs.sort(); inputs.dedup();
+    type Out = (Fails, Oc, Vec<Prefix>, Vec<MaxLenPrefix>, Vec<RouteOrigin>);
+    let res: Vec<Out> = inputs.par_chunks(4096).map(|chunk| {
+        let mut fl = Fails::new(); let mut oc: Oc = BTreeMap::new(); let (mut ps, mut ms, mut rs) = (Vec::new(), Vec::new(), Vec::new());
+        for data in chunk {
+            let wit = || format!("input_hex={}", rpki_verif::hex(data));
+            // Prefix
+            match guard(|| Prefix::arbitrary(&mut Unstructured::new(data))) {
+                Err(p) => fl.fail("C13.arbitrary.prefix", &wit, || p),
+                Ok(Err(_)) => bump(&mut oc, "prefix-not-produced"),
+                Ok(Ok(x)) => { bump(&mut oc, "prefix-produced"); ps.push(x);
+                    fl.check("C13.arbitrary.prefix", &wit, || {
+                        let o = prefix_invariant(x)?;
+                        let y = Prefix::new(o.ip(), o.len).map_err(|e| format!("Prefix::new({}, {}) of its own accessors fails: {e}", o.ip(), o.len))?;
+                        if !(x == y) || !(y == x) || x.cmp(&y) != Ordering::Equal { return Err(format!("arbitrary {x:?} vs constructed {y:?}: == {}, cmp {:?}", x == y, x.cmp(&y))) }
+                        if h(&x) != h(&y) { return Err(format!("arbitrary {x:?} and the equal constructed {y:?} {}", hash_diff(h(&x), h(&y)))) }
+                        ops_vs_cmp(&x, &y, 0)?;
+                        if x.to_string() != y.to_string() || !x.covers(y) || !y.covers(x) { return Err("Display / covers differ from the constructed twin".into()) }
+                        match Prefix::from_str(&x.to_string()) { Ok(q) if q == x && h(&q) == h(&x) => Ok(()), other => Err(format!("{} parses back to {other:?}, not to {x:?}", x)) }
+                    });
+                }
+            }
+            // MaxLenPrefix
+            match guard(|| MaxLenPrefix::arbitrary(&mut Unstructured::new(data))) {
+                Err(p) => fl.fail("C13.arbitrary.maxlen", &wit, || p),
+                Ok(Err(_)) => bump(&mut oc, "maxlen-not-produced"),
+                Ok(Ok(x)) => { bump(&mut oc, "maxlen-produced"); ms.push(x);
+                    fl.check("C13.arbitrary.maxlen", &wit, || {
+                        let o = prefix_invariant(x.prefix())?;
+                        if let Some(m) = x.max_len() { if m < o.len || m > fam_max(o.v4) { return Err(format!("produced {}-{m}: max-len outside [{}, {}]", o.text(), o.len, fam_max(o.v4))) } }
+                        let y = MaxLenPrefix::new(Prefix::new(o.ip(), o.len).map_err(|e| e.to_string())?, x.max_len()).map_err(|e| format!("MaxLenPrefix::new of its own accessors fails: {e}"))?;
+                        if !(x == y) || x.cmp(&y) != Ordering::Equal || h(&x) != h(&y) { return Err(format!("arbitrary {x:?} vs constructed {y:?}: == {}, cmp {:?}, hashes {}", x == y, x.cmp(&y), hash_diff(h(&x), h(&y)))) }
+                        ops_vs_cmp(&x, &y, 0)?;
+                        match MaxLenPrefix::from_str(&x.to_string()) { Ok(q) if q == x && h(&q) == h(&x) => Ok(()), other => Err(format!("{} parses back to {other:?}, not to {x:?}", x)) }
+                    });
+                }
+            }
+            // RouteOrigin
+            match guard(|| RouteOrigin::arbitrary(&mut Unstructured::new(data))) {
+                Err(p) => fl.fail("C13.arbitrary.origin", &wit, || p),
+                Ok(Err(_)) => bump(&mut oc, "origin-not-produced"),
+                Ok(Ok(x)) => { bump(&mut oc, "origin-produced"); rs.push(x);
+                    fl.check("C13.arbitrary.origin", &wit, || {
+                        let o = prefix_invariant(x.prefix.prefix())?;
+                        if let Some(m) = x.prefix.max_len() { if m < o.len || m > fam_max(o.v4) { return Err(format!("produced {}-{m}: max-len outside [{}, {}]", o.text(), o.len, fam_max(o.v4))) } }
+                        let y = RouteOrigin::new(MaxLenPrefix::new(Prefix::new(o.ip(), o.len).map_err(|e| e.to_string())?, x.prefix.max_len()).map_err(|e| e.to_string())?, Asn::from_u32(x.asn.into_u32()));
+                        if !(x == y) || x.cmp(&y) != Ordering::Equal || h(&x) != h(&y) { return Err(format!("arbitrary {x:?} vs constructed {y:?}: == {}, cmp {:?}, hashes {}", x == y, x.cmp(&y), hash_diff(h(&x), h(&y)))) }
+                        ops_vs_cmp(&x, &y, 0)?;
+                        let (px, py) = (Payload::from(x), Payload::from(y));
+                        if px != py || px.cmp(&py) != Ordering::Equal || h(&px) != h(&py) { return Err("payload of the arbitrary origin differs from the payload of its constructed twin".into()) }
+                        if x.is_v4() != o.v4 { return Err("is_v4".into()) }
+                        Ok(())
+                    });
+                }
+            }
+            // Asn
+            match guard(|| Asn::arbitrary(&mut Unstructured::new(data))) {
+                Err(p) => fl.fail("C13.arbitrary.asn", &wit, || p),
+                Ok(Err(_)) => bump(&mut oc, "asn-not-produced"),
+                Ok(Ok(x)) => { bump(&mut oc, "asn-produced");
+                    fl.check("C13.arbitrary.asn", &wit, || {
+                        let y = Asn::from_u32(x.into_u32());
+                        if x != y || x.cmp(&y) != Ordering::Equal || h(&x) != h(&y) { return Err(format!("arbitrary {x:?} vs constructed {y:?}")) }
+                        match Asn::from_str(&x.to_string()) { Ok(q) if q == x => Ok(()), other => Err(format!("{x} parses back to {other:?}")) }
+                    });
+                }
+            }
+        }
+        (fl, oc, ps, ms, rs)
+    }).collect();
+    let (mut ps, mut ms, mut rs): (Vec<Prefix>, Vec<MaxLenPrefix>, Vec<RouteOrigin>) = (Vec::new(), Vec::new(), Vec::new());
+    for (fl, oc, p, m, r) in res { fl.flush(ctx); sp.merge_outcomes(&oc); ps.extend(p); ms.extend(m); rs.extend(r) }
+    sp.evals(inputs.len() as u64 * 4);
+    // distinct values by their Debug rendering (shows the raw representation), capped to keep the pair pass quadratic-but-small
+    fn distinct<T: std::fmt::Debug + Copy>(v: Vec<T>, cap: usize) -> Vec<T> { let mut seen = BTreeSet::new(); v.into_iter().filter(|x| seen.insert(format!("{x:?}"))).take(cap).collect() }
+    let (ps, ms, rs) = (distinct(ps, 3000), distinct(ms, 3000), distinct(rs, 3000));
+    sp.nontrivial((ps.len() + ms.len() + rs.len()) as u64);
+    fn pair_laws<T: Ord + Hash + Copy + Sync + std::fmt::Debug, K: PartialEq + Sync>(ctx: &Ctx, sp: &rpki_verif::Space, oracle: &'static str, v: &[T], key: &(dyn Fn(&T) -> K + Sync)) {
+        let n = v.len();
+        let hs: Vec<H3> = v.iter().map(|x| guard(|| h(x)).unwrap_or((0, 0, 0))).collect();
+        let keys: Vec<Option<K>> = v.iter().map(|x| guard(|| key(x)).ok()).collect();
+        batched(ctx, n, 512, |i, fl| {
+            for j in 0..n {
+                let wit = || format!("a={:?} b={:?}", v[i], v[j]);
+                fl.check(oracle, &wit, || {
+                    let c = v[i].cmp(&v[j]) as i8; let eq = v[i] == v[j];
+                    if c != -(v[j].cmp(&v[i]) as i8) { return Err("cmp is not antisymmetric".into()) }
+                    if (c == 0) != eq || eq != (keys[i].is_some() && keys[i] == keys[j]) { return Err(format!("cmp = {c}, == is {eq}, same integers: {}", keys[i] == keys[j])) }
+                    if eq && hs[i] != hs[j] { return Err(format!("equal values {}", hash_diff(hs[i], hs[j]))) }
+                    ops_vs_cmp(&v[i], &v[j], c)
+                });
+            }
+            sp.evals(n as u64);
+        });
+    }
+    pair_laws(ctx, &sp, "C13.arbitrary.prefix.pairs", &ps, &|x: &Prefix| { let o = observe(*x); (o.v4, o.addr, o.len) });
+    pair_laws(ctx, &sp, "C13.arbitrary.maxlen.pairs", &ms, &|x: &MaxLenPrefix| { let o = observe(x.prefix()); (o.v4, o.addr, o.len, x.max_len()) });
+    pair_laws(ctx, &sp, "C13.arbitrary.origin.pairs", &rs, &|x: &RouteOrigin| { let o = observe(x.prefix.prefix()); (o.v4, o.addr, o.len, x.prefix.resolved_max_len(), x.asn.into_u32()) });
+    sp.set("inputs", json!(inputs.len())); sp.set("distinct_prefixes", json!(ps.len())); sp.set("distinct_maxlen_prefixes", json!(ms.len())); sp.set("distinct_origins", json!(rs.len()));
+    sp.sample_str(|| "input_hex=0180 -> Prefix::arbitrary gives ::/128; it must be == Prefix::new(::, 128), hash like it and parse back from \"::/128\"".into());
+    sp.done(true, &format!("{} inputs (all octet strings of length <= {max_len} + structured 24-octet inputs) x 4 types; all pairs of up to 3000 distinct values per type", inputs.len()));
+    lap(t0, &sp.name);
+}
+
 // ------------------------------------------------ serde spellings of an ASN
 
 fn json_of(f: impl FnOnce(&mut serde_json::Serializer<&mut Vec<u8>>) -> Result<(), serde_json::Error>) -> Result<String, String> {
@@ -189,7 +361,7 @@ fn main() {
     let t0 = std::time::Instant::now();
     let ctx = Ctx::new("C13", "exploration");
     ctx.assume("std::net address parsing/formatting and integer parsing are trusted");
-    ctx.assume("std::hash::DefaultHasher::new() is deterministic; equal values must hash equally under any hasher");
+    ctx.assume("equal values must feed a Hasher the same sequence of write calls; judged with std DefaultHasher, an FxHash-style hasher sensitive to call chunking, and a digest of the call sequence itself");
     let thorough = ctx.tier.is_thorough();
 
     // ------------------------------------------------------ 1. prefix.construct
@@ -320,7 +492,7 @@ fn main() {
 
     // ------------------------------------------------------- 3. text.deviations
     let sp = ctx.space("text.deviations",
-        "rendered prefixes / max-len prefixes / ASNs with every single-character deletion, replacement and insertion over a 16-character alphabet (thorough: every pair of such deviations), plus every numeric spelling n, +n, 0n, 00n, -n, ' n', 'n ' (n = 0..=300) of the length and max-len fields; each text offered to Prefix::from_str, Prefix::from_str_relaxed, MaxLenPrefix::from_str, Asn::from_str and (as a JSON string) to Asn::deserialize_from_str / deserialize_from_any, which must agree with Asn::from_str; accepted values must satisfy the construction invariants, equal the most liberal integer reading of the text and survive Display->FromStr; non-trivial = distinct texts accepted by at least one entry point");
+        "rendered prefixes / max-len prefixes / ASNs with every single-character deletion, replacement and insertion over a 16-character alphabet (thorough: every pair of such deviations), plus every numeric spelling n, +n, 0n, 00n, -n, ' n', 'n ' (n = 0..=300) of the length and max-len fields, and zero-padded / all-nines fields of every length 0..=40 and 2^k-1..2^k+1 up to 4097 characters; each text offered to Prefix::from_str, Prefix::from_str_relaxed, MaxLenPrefix::from_str, Asn::from_str and (as a JSON string) to Asn::deserialize_from_str / deserialize_from_any, which must agree with Asn::from_str; accepted values must satisfy the construction invariants, equal the most liberal integer reading of the text and survive Display->FromStr; non-trivial = distinct texts accepted by at least one entry point");
     {
         let seeds: Vec<&str> = vec!["10.0.0.0/8", "0.0.0.0/0", "255.255.255.255/32", "192.168.0.0/16", "1.2.3.4/24", "::/0", "2001:db8::/32",
             "ffff:ffff:ffff:ffff:ffff:ffff:ffff:ffff/128", "::ffff:0:0/96", "10.0.0.0/8-24", "10.0.0.0/8-8", "10.0.0.0/8-32", "2001:db8::/32-48",
@@ -431,6 +603,12 @@ fn main() {
         }
         for n in [0u64, 1, 65535, 65536, 4294967295, 4294967296, 42949672950] { for pre in ["", "AS", "as", "aS", "As", "AS ", " AS", "ASAS", "A", "S"] {
             for sx in [format!("{n}"), format!("+{n}"), format!("0{n}"), format!("-{n}")] { texts.push(format!("{pre}{sx}")) } } }
+        // character counts of the numeric fields: zero padding of every length 0..=40 and around the powers of two up to 4096
+        let pads: Vec<usize> = (0..=40).chain([63, 64, 65, 127, 128, 129, 255, 256, 257, 1023, 1024, 1025, 4095, 4096, 4097]).collect();
+        for &z in &pads { let zeros = "0".repeat(z); let nines = "9".repeat(z);
+            texts.push(format!("10.0.0.0/{zeros}8")); texts.push(format!("10.0.0.0/8-{zeros}24")); texts.push(format!("2001:db8::/{zeros}32-{zeros}48"));
+            texts.push(format!("AS{zeros}65000")); texts.push(format!("{zeros}65000")); texts.push(format!("AS{nines}")); texts.push(format!("10.0.0.0/{nines}"));
+        }
         let res: Vec<(Fails, Oc, Option<String>)> = texts.par_iter().map(|t| {
             let mut fl = Fails::new(); let mut oc: Oc = BTreeMap::new();
             let any = probe(&mut fl, &mut oc, t);
@@ -466,7 +644,7 @@ fn main() {
     }).collect();
     let dom: Vec<MP> = made.iter().map(|x| x.0).collect();
     let prefixes: Vec<Prefix> = made.iter().map(|x| x.1).collect();
-    let hashes: Vec<u64> = prefixes.iter().map(|p| guard(|| h(p)).unwrap_or(0)).collect();
+    let hashes: Vec<H3> = prefixes.iter().map(|p| guard(|| h(p)).unwrap_or((0, 0, 0))).collect();
     let n = dom.len();
     let sp = ctx.space("prefix.relations",
         "all ordered pairs and triples of the prefix domain (both families: every prefix up to the short length bound, plus lengths 9/16/24/31/32 resp. 9/32/64/96/127/128 at 7 addresses): covers = range inclusion within a family; cmp antisymmetric, Equal <=> == <=> same (family, address, length), == implies equal hash, a strictly covered prefix sorts before its cover; cmp transitive over all triples (relation matrix computed by n^2 real calls); non-trivial = pairs of different prefixes one of which covers the other + triples a<b<c of three different prefixes");
@@ -485,7 +663,8 @@ fn main() {
             if c != c_rev.reverse() { fl.fail("C13.prefix.cmp.antisymmetric", &wit, || format!("cmp(a,b) = {c:?}, cmp(b,a) = {c_rev:?}")) }
             if pc != Some(c) { fl.fail("C13.prefix.cmp.antisymmetric", &wit, || format!("partial_cmp = {pc:?}, cmp = {c:?}")) }
             if (c == Ordering::Equal) != eq || eq != (a == b) { fl.fail("C13.prefix.cmp.eq", &wit, || format!("cmp = {c:?}, == is {eq}, same value: {}", a == b)) }
-            if eq && hashes[i] != hashes[j] { fl.fail("C13.prefix.eq.hash", &wit, || "equal prefixes hash differently".into()) }
+            if eq && hashes[i] != hashes[j] { fl.fail("C13.prefix.eq.hash", &wit, || format!("equal prefixes {}", hash_diff(hashes[i], hashes[j]))) }
+            fl.check("C13.prefix.cmp.operators", &wit, || ops_vs_cmp(&pa, &pb, c as i8));
             if m_cov && a != b && c_rev != Ordering::Less { fl.fail("C13.prefix.cmp.specific_first", &wit, || format!("a covers b, yet cmp(b,a) = {c_rev:?}")) }
             match c { Ordering::Less => c_l += 1, Ordering::Equal => c_e += 1, Ordering::Greater => c_g += 1 }
             if a.v4 != b.v4 { c_x += 1 } else if m_cov || b.covers(a) { c_cov += 1; if i != j { nt += 1 } } else { c_dis += 1 }
@@ -538,7 +717,7 @@ fn main() {
         let n = mls.len();
         let cm: Vec<i8> = (0..n * n).into_par_iter().map(|k| match guard(|| mls[k / n].3.cmp(&mls[k % n].3)) {
             Ok(Ordering::Less) => -1, Ok(Ordering::Equal) => 0, Ok(Ordering::Greater) => 1, Err(_) => 2 }).collect();
-        let hs: Vec<u64> = mls.iter().map(|x| guard(|| h(&x.3)).unwrap_or(0)).collect();
+        let hs: Vec<H3> = mls.iter().map(|x| guard(|| h(&x.3)).unwrap_or((0, 0, 0))).collect();
         batched(&ctx, n, 4096, |i, fl| {
             let (_, ma, oa, va) = mls[i];
             let (mut c_l, mut c_e, mut c_g, mut nt, mut tri) = (0u64, 0u64, 0u64, 0u64, 0u64);
@@ -551,7 +730,8 @@ fn main() {
                 let eq = match guard(|| va == vb) { Ok(e) => e, Err(p) => { fl.fail("C13.maxlen.cmp.nopanic", &wit, || p); continue } };
                 if c != -cr { fl.fail("C13.maxlen.cmp.antisymmetric", &wit, || format!("cmp(a,b) = {c}, cmp(b,a) = {cr}")) }
                 if (c == 0) != eq || eq != (ma == mb && oa == ob) { fl.fail("C13.maxlen.cmp.eq", &wit, || format!("cmp = {c}, == is {eq}, same value: {}", ma == mb && oa == ob)) }
-                if eq && hs[i] != hs[j] { fl.fail("C13.maxlen.eq.hash", &wit, || "equal values hash differently".into()) }
+                if eq && hs[i] != hs[j] { fl.fail("C13.maxlen.eq.hash", &wit, || format!("equal values {}", hash_diff(hs[i], hs[j]))) }
+                fl.check("C13.maxlen.cmp.operators", &wit, || ops_vs_cmp(&va, &vb, c));
                 if ma.covers(mb) && ma != mb && cr != -1 { fl.fail("C13.maxlen.cmp.specific_first", &wit, || format!("prefix of a covers prefix of b, yet cmp(b,a) = {cr}")) }
                 match c { -1 => c_l += 1, 0 => c_e += 1, _ => c_g += 1 }
                 if ma == mb && oa != ob { nt += 1 }
@@ -586,7 +766,7 @@ fn main() {
         let n = ros.len();
         let cm: Vec<i8> = (0..n * n).into_par_iter().map(|k| match guard(|| ros[k / n].3.cmp(&ros[k % n].3)) {
             Ok(Ordering::Less) => -1, Ok(Ordering::Equal) => 0, Ok(Ordering::Greater) => 1, Err(_) => 2 }).collect();
-        let hs: Vec<u64> = ros.iter().map(|x| guard(|| h(&x.3)).unwrap_or(0)).collect();
+        let hs: Vec<H3> = ros.iter().map(|x| guard(|| h(&x.3)).unwrap_or((0, 0, 0))).collect();
         let show = |r: &(usize, u8, u32, RouteOrigin)| { let (_, m, o, _) = mls[r.0]; format!("{}{} AS{}", m.text(), o.map(|x| format!("-{x}")).unwrap_or_default(), r.2) };
         batched(&ctx, n, 2048, |i, fl| {
             let ra = &ros[i]; let ma = mls[ra.0].1;
@@ -612,7 +792,8 @@ fn main() {
                 let same_key = ma == mb && ra.1 == rb.1 && ra.2 == rb.2;
                 if eq != same_key { fl.fail("C13.origin.eq.key", &wit, || format!("== is {eq}; same (prefix, effective max-len, ASN): {same_key}")) }
                 if (c == 0) != eq { fl.fail("C13.origin.cmp.eq", &wit, || format!("cmp = {c}, == is {eq}")) }
-                if eq && hs[i] != hs[j] { fl.fail("C13.origin.eq.hash", &wit, || "equal route origins hash differently".into()) }
+                if eq && hs[i] != hs[j] { fl.fail("C13.origin.eq.hash", &wit, || format!("equal route origins {}", hash_diff(hs[i], hs[j]))) }
+                fl.check("C13.origin.cmp.operators", &wit, || ops_vs_cmp(&ra.3, &rb.3, c));
                 if c != -cr { fl.fail("C13.origin.cmp.antisymmetric", &wit, || format!("cmp(a,b) = {c}, cmp(b,a) = {cr}")) }
                 // lexicographic key: prefix (by the prefix's own order), effective max-len, ASN
                 let (pi, pj) = (mls[ra.0].0, mls[rb.0].0);
@@ -623,7 +804,9 @@ fn main() {
                     let pb = Payload::from(rb.3);
                     if (pa.cmp(&pb) as i8) != c || pa.partial_cmp(&pb).map(|x| x as i8) != Some(c) || (pa.as_ref().cmp(&pb.as_ref()) as i8) != c { return Err(format!("Payload / PayloadRef cmp differs from RouteOrigin cmp {c}")) }
                     if (pa == pb) != eq || (pa.as_ref() == pb.as_ref()) != eq { return Err(format!("Payload / PayloadRef == differs from RouteOrigin == ({eq})")) }
-                    if eq && (h(&pa) != h(&pb) || h(&pa.as_ref()) != h(&pb.as_ref())) { return Err("equal payloads hash differently".into()) }
+                    if eq && (h(&pa) != h(&pb) || h(&pa.as_ref()) != h(&pb.as_ref())) { return Err(format!("equal payloads {}", hash_diff(h(&pa), h(&pb)))) }
+                    ops_vs_cmp(&pa, &pb, c).map_err(|e| format!("Payload: {e}"))?;
+                    ops_vs_cmp(&pa.as_ref(), &pb.as_ref(), c).map_err(|e| format!("PayloadRef: {e}"))?;
                     Ok(())
                 });
                 match c { -1 => c_l += 1, 0 => c_e += 1, _ => c_g += 1 }
@@ -675,6 +858,25 @@ fn main() {
         }).collect();
         for b in bad.into_iter().flatten() { ctx.fail(if b.1.starts_with("serde") { "C13.asn.serde.roundtrip" } else { "C13.asn.text.roundtrip" }, format!("asn={}", b.0), b.1) }
         sp.evals(vals.len() as u64 * (3 + 16)); sp.nontrivial(vals.len() as u64);
+        // all pairs of boundary ASNs: order, operators, equality and the three hashers follow the number
+        {
+            let mut b: Vec<u32> = vec![0, 1, 2, 255, 256, 65535, 65536, u32::MAX - 1, u32::MAX];
+            for k in 1..32 { let p = 1u32 << k; b.extend([p - 1, p, p + 1]) }
+            b.sort(); b.dedup();
+            for &x in &b { for &y in &b {
+                sp.eval();
+                let (ax, ay) = (Asn::from_u32(x), Asn::from_u32(y));
+                ctx.check("C13.asn.cmp", || format!("a=AS{x} b=AS{y}"), || {
+                    let c = ax.cmp(&ay) as i8;
+                    if c != x.cmp(&y) as i8 { return Err(format!("cmp = {c}")) }
+                    ops_vs_cmp(&ax, &ay, c)?;
+                    if (ax == ay) != (x == y) { return Err("== differs from the numbers".into()) }
+                    if x == y && h(&ax) != h(&ay) { return Err(format!("equal ASNs {}", hash_diff(h(&ax), h(&ay)))) }
+                    Ok(())
+                });
+            }}
+            sp.outcomes_n("asn-pairs", (b.len() * b.len()) as u64);
+        }
         // JSON literals: deserialize_from_any must agree with deserialize_from_u32 on numbers and with
         // deserialize_from_str / FromStr on strings
         for lit in ["0", "1", "-0", "-1", "255", "256", "-128", "32768", "65536", "2147483648", "4294967295", "4294967296", "18446744073709551615",
@@ -839,7 +1041,7 @@ fn main() {
     // ---------------------------------------------------------- 10. asnset.sizes
     // SIZE dimension: merge walks may switch strategy by size or size ratio.
     let sp = ctx.space("asnset.sizes",
-        "structured set families: (a) large sets of 15,16,17,31,32,33,48,64,100 items (arithmetic progressions with step 1 and 3 from 64500, a progression ending at u32::MAX, a progression with one middle item removed) x every small set of 0..=3 items drawn from {below min, min, non-member above min, middle member, middle non-member, max, above max}, both argument orders; (b) every size pair 0..=130 x 0..=8 (thorough: 0..=400 x 0..=24) with the small set taken as the bottom / top / evenly spread members / non-members of the large one, both orders; (c) all pairs of the large sets; union, intersection, difference, symmetric_difference against BTreeSet, contains for every value in [min-1, max+1] (capped at 400 probes), from_iter from reversed and doubled input; non-trivial = pairs with a non-empty intersection");
+        "structured set families: (a) large sets of 15,16,17,31,32,33,48,64,100 items (arithmetic progressions with step 1 and 3 from 64500, a progression ending at u32::MAX, a progression with one middle item removed) x every small set of 0..=3 items drawn from {below min, min, non-member above min, middle member, middle non-member, max, above max}, both argument orders; (b) every size pair 0..=130 x 0..=8 (thorough: 0..=400 x 0..=24) with the small set taken as the bottom / top / evenly spread members / non-members of the large one, both orders; (c) all pairs of the large sets; (d) sets of 2^k-1, 2^k, 2^k+1 items for k = 8,10,12,14,16 (thorough: also 18, 20) against every small set of <= 3 items drawn from {first, middle, last member, gap before / between / after} and against same-scale variants (equal, without first / last, shifted, one more, every second), both orders; union, intersection, difference, symmetric_difference against BTreeSet, contains for every value in [min-1, max+1] (capped at 400 probes), from_iter from reversed and doubled input; non-trivial = pairs with a non-empty intersection");
     {
         let mk = |v: &BTreeSet<u32>| -> SmallAsnSet { v.iter().map(|&x| Asn::from_u32(x)).collect() };
         let mut pairs: Vec<(BTreeSet<u32>, BTreeSet<u32>)> = Vec::new();
@@ -924,11 +1126,85 @@ fn main() {
             (fl, ev, (inter > 0) as u64, oc)
         }).collect();
         for (fl, ev, nt, oc) in res { fl.flush(&ctx); sp.evals(ev); sp.nontrivial(nt); sp.merge_outcomes(&oc) }
+        // (d) SCALE: set sizes through the neighbourhoods of the powers of two. Sets of 2^k-1, 2^k, 2^k+1 items
+        // (every 7th member of a step-2 progression missing), built once from reversed + repeated input.
+        struct Big { label: String, model: BTreeSet<u32>, set: SmallAsnSet }
+        let pows: Vec<u32> = ctx.tier.pick(vec![8, 10, 12, 14, 16], vec![8, 10, 12, 14, 16, 18, 20]);
+        let mut bigs: Vec<std::sync::Arc<Big>> = Vec::new();
+        let mut big_pairs: Vec<(std::sync::Arc<Big>, std::sync::Arc<Big>)> = Vec::new();
+        let mkbig = |label: String, model: BTreeSet<u32>| -> Option<std::sync::Arc<Big>> {
+            let items: Vec<u32> = model.iter().copied().collect();
+            sp.eval();
+            match guard(|| items.iter().rev().chain(items.iter()).map(|&x| Asn::from_u32(x)).collect::<SmallAsnSet>()) {
+                Err(p) => { ctx.fail("C13.asnset.from_iter", format!("items={label} reversed then repeated"), p); None }
+                Ok(set) => {
+                    let ok = guard(|| set.len() == items.len() && set.iter().map(|a| a.into_u32()).eq(items.iter().copied())).unwrap_or(false);
+                    if !ok { ctx.fail("C13.asnset.from_iter", format!("items={label} reversed then repeated"), format!("the set has {} items and does not iterate as the {} distinct items in ascending order", set.len(), items.len())); return None }
+                    Some(std::sync::Arc::new(Big { label, model, set }))
+                }
+            }
+        };
+        for &k in &pows { for n in [(1u32 << k) - 1, 1 << k, (1 << k) + 1] {
+            let members = |n: u32| (0u32..).filter(|i| i % 7 != 6).take(n as usize).map(|i| 1000 + 2 * i);
+            let model: BTreeSet<u32> = members(n).collect();
+            let (first, last) = (1000u32, *model.iter().next_back().unwrap());
+            let mid = *model.iter().nth(model.len() / 2).unwrap();
+            let Some(l) = mkbig(format!("P({n})"), model.clone()) else { continue };
+            // small operands: first / middle / last member and the gaps before, between, after
+            let cands = [first - 1, first, 1012, mid, mid + 1, last, last + 1];
+            for mask in 0u32..(1 << cands.len()) {
+                if mask.count_ones() > 3 { continue }
+                let small: BTreeSet<u32> = cands.iter().enumerate().filter(|(i, _)| mask >> i & 1 == 1).map(|(_, x)| *x).collect();
+                let lbl = format!("{:?}", small.iter().collect::<Vec<_>>());
+                if let Some(s_) = mkbig(lbl, small) { big_pairs.push((l.clone(), s_.clone())); big_pairs.push((s_, l.clone())) }
+            }
+            // operands of the same scale
+            let mut others: Vec<(String, BTreeSet<u32>)> = vec![
+                (format!("P({n}) again"), model.clone()),
+                (format!("P({n}) without its last item"), model.iter().copied().filter(|x| *x != last).collect()),
+                (format!("P({n}) without its first item"), model.iter().copied().filter(|x| *x != first).collect()),
+                (format!("P({n}) with every item + 1"), model.iter().map(|x| x + 1).collect()),
+                (format!("P({n}) and {}", last + 2), model.iter().copied().chain([last + 2]).collect()),
+                (format!("every second item of P({n})"), model.iter().copied().step_by(2).collect()),
+            ];
+            for (lbl, m) in others.drain(..) { if let Some(o) = mkbig(lbl, m) { big_pairs.push((l.clone(), o.clone())); big_pairs.push((o, l.clone())) } }
+            bigs.push(l);
+        }}
+        let first_diff = |g: &[u32], w: &[u32]| -> String {
+            let i = g.iter().zip(w).position(|(x, y)| x != y).unwrap_or(g.len().min(w.len()));
+            format!("{} items instead of {}; first difference at position {i}: {:?} instead of {:?}", g.len(), w.len(), g.get(i), w.get(i))
+        };
+        let res: Vec<(Fails, u64, Oc)> = big_pairs.par_iter().map(|(a, b)| {
+            let mut fl = Fails::new(); let mut oc: Oc = BTreeMap::new();
+            let wit = || format!("left={} right={}   [P(n) = the first n of 1000, 1002, 1004, … with every 7th one left out]", a.label, b.label);
+            let mut run = |name: &'static str, got: Result<Vec<u32>, String>, want: Vec<u32>| {
+                match got {
+                    Err(p) => fl.fail(name, &wit, || p),
+                    Ok(g) => if g != want { fl.fail(name, &wit, || first_diff(&g, &want)) }
+                }
+            };
+            run("C13.asnset.union", guard(|| a.set.union(&b.set).map(|x| x.into_u32()).collect()), a.model.union(&b.model).copied().collect());
+            run("C13.asnset.intersection", guard(|| a.set.intersection(&b.set).map(|x| x.into_u32()).collect()), a.model.intersection(&b.model).copied().collect());
+            run("C13.asnset.difference", guard(|| a.set.difference(&b.set).map(|x| x.into_u32()).collect()), a.model.difference(&b.model).copied().collect());
+            run("C13.asnset.symmetric_difference", guard(|| a.set.symmetric_difference(&b.set).map(|x| x.into_u32()).collect()), a.model.symmetric_difference(&b.model).copied().collect());
+            // contains: every item of the other operand and its neighbours, against the model
+            let probes: Vec<u32> = b.model.iter().take(50).chain(b.model.iter().rev().take(50)).flat_map(|x| [x.wrapping_sub(1), *x, x.wrapping_add(1)]).collect();
+            match guard(|| probes.iter().find(|x| a.set.contains(Asn::from_u32(**x)) != a.model.contains(x)).copied()) {
+                Err(p) => fl.fail("C13.asnset.contains", &wit, || p),
+                Ok(Some(x)) => fl.fail("C13.asnset.contains", &wit, || format!("left.contains({x}) is wrong")),
+                Ok(None) => {}
+            }
+            bump(&mut oc, if a.model.is_disjoint(&b.model) { "large-scale-disjoint" } else { "large-scale-overlapping" });
+            (fl, 5, oc)
+        }).collect();
+        for (fl, ev, oc) in res { fl.flush(&ctx); sp.evals(ev); sp.nontrivial(1); sp.merge_outcomes(&oc) }
+        sp.set("scale_set_sizes", json!(bigs.iter().map(|b| b.model.len()).collect::<Vec<_>>())); sp.set("scale_pairs", json!(big_pairs.len()));
         sp.set("pairs", json!(pairs.len())); sp.set("large_set_sizes", json!([15, 16, 17, 31, 32, 33, 48, 64, 100]));
         sp.sample_str(|| "left={64500, 64503, .. 64545 (16 items, step 3)} right=[64545] : intersection must be [64545]".into());
         sp.done(true, &format!("{} structured pairs (36 large sets x all small sets of <= 3 boundary items x both orders; all pairs of large sets; sizes 0..={max_m} x 0..={max_k} x 4 placements x both orders) x 4 operations + contains + from_iter", pairs.len()));
         lap(&t0, &sp.name);
     }
+    arbitrary_space(&ctx, &t0);
     let suppressed = SUPPRESSED.load(AtomicOrdering::Relaxed);
     if suppressed > 0 {
         sp.set("failing_cases_counted_but_not_listed_individually", json!(suppressed));
